@@ -133,6 +133,33 @@ def all_programs(edges, cap=None, rng=None):
     return res, total, nedges, False
 
 
+def explain(devrel, init_pred, tokens, same):
+    """Follow the observed token sequence through the relation with all deviations enabled; same(edge, i) tells whether
+    the real step i looked like that edge.  Returns the first deviation the matching path relies on, None if the real
+    run is not a path of the relation or relies on no deviation."""
+    idx = {}
+    init = None
+    for e in devrel.edges:
+        idx.setdefault((vf.canon(e["s"]), vf.canon(e["a"]["tok"])), e)
+        if init is None and init_pred(e["s"]):
+            init = e["s"]
+    if init is None:
+        return None
+    cur, dev = init, None
+    for i, tok in enumerate(tokens):
+        e = idx.get((vf.canon(cur), vf.canon(tok)))
+        if e is None or not same(e, i):
+            return None
+        dev = dev or e["a"].get("dev") or None
+        cur = e["t"]
+    return dev
+
+
+def is_init(s, cfgrec=None):
+    return s["phase"] in ("greet", "http") and s["method"] == "none" and s["exec"] == "" and s["assoc"] == "none" \
+        and not s["sentValid"] and (cfgrec is None or s["cfg"] == cfgrec)
+
+
 def hs_programs(paths, attacks=()):
     """Programs for the handshake harness: token + predicted replies / executed command / phase per step.
     attacks: [(deviation, path)] scenarios from the deviation relation (judged by the property oracle only)."""
